@@ -19,14 +19,15 @@ from ..hexcommon import (
 from ..hexrun import apply_simple
 from ..ref.mpt import BLANK_ROOT, MISSING, RefTrie, resolve
 from ..ref.rlp_hp import hp, hp_decode, rlp_encode
-from ..util import HarnessError, Info, expect, expect_eq, impl, nibbles_of
+from ..util import HarnessError, Info, cm_enter, cm_exit, expect, expect_eq, impl, nibbles_of
 
 ID = "C03"
 ATHERIS = True  # thorough tier: coverage-guided second engine over the same strategy/run_case
 LEVEL = "exploration"
 BUDGET = {"quick": 10000, "thorough": 800000}
 RULE = (
-    "case = (history building trie T1, 1-3 further edits giving sibling trie T2, a key "
+    "case = (history building trie T1 - a plain trie, a pruning trie, or the batch trie inside "
+    "an open squash_changes block -, 1-3 further edits giving sibling trie T2, a key "
     "(stored / absent / prefix of / extension of a stored key, index-based), a "
     "corruption script of 0-5 steps over T1.get_proof(key): drop, duplicate, swap, "
     "reverse, alter a node (value / child hash / path nibbles / leaf<->extension flip, "
@@ -81,6 +82,7 @@ def strategy(tier):
             "script": st.lists(step, max_size=5),
             "root": st.tuples(st.sampled_from([0, 0, 0, 1, 1, 2, 3, 3, 4, 5]),
                               st.binary(min_size=32, max_size=32)),
+            "mode": st.sampled_from([0, 0, 0, 1, 1, 2]),
         }
     )
 
@@ -135,11 +137,29 @@ def run_case(case):
     info = Info()
     # ---- build T1 and T2 ---------------------------------------------------------
     db1 = {}
-    t1 = impl("construct", HexaryTrie, db1)
+    mode = case.get("mode", 0)  # 0: plain trie, 1: pruning trie, 2: proofs taken inside a batch
+    t1 = impl("construct", HexaryTrie, db1, prune=(mode == 1))
     m1 = {}
-    for op in case["t1"]:
-        apply_simple(t1, m1, op)
+    info.label(["plain-trie", "pruning-trie", "proof-inside-batch"][mode])
+    cm = None
+    if mode == 2:
+        ops = case["t1"]
+        for op in ops[: len(ops) // 2]:
+            apply_simple(t1, m1, op)
+        outer = t1
+        cm = impl("squash_changes", outer.squash_changes)
+        t1 = cm_enter("squash_changes", cm)
+        for op in ops[len(ops) // 2:]:
+            apply_simple(t1, m1, op)
+    else:
+        for op in case["t1"]:
+            apply_simple(t1, m1, op)
     db2 = dict(db1)
+    if mode == 2:
+        # readable view of the batch: the underlying db overlaid with the buffered writes
+        # (ScratchDB.copy() alone drops keys whose buffered action is a delete although
+        # they still read through)
+        db2.update(impl("scratch-copy", t1.db.copy))
     t2 = impl("construct", HexaryTrie, db2, t1.root_hash)
     m2 = dict(m1)
     for op in case["t2"]:
@@ -263,6 +283,8 @@ def run_case(case):
             raise HarnessError("resolver disagrees with model under the true root (collision or oracle bug)")
         if root == ref2.root_hash and want != m2.get(key, b""):
             raise HarnessError("resolver disagrees with model 2 under the true root")
+    if cm is not None:
+        cm_exit("squash_changes-exit", cm)
     info.label("script-applied", applied > 0)
     info.nontrivial = len(proof) >= 2 and (
         interesting_absent or (applied > 0 and want is not MISSING)
